@@ -16,6 +16,8 @@
 -/
 import TephraModel.Grammar
 
+set_option linter.unusedVariables false
+
 namespace Tephra
 
 abbrev Lx := Lexer Nat Tok
@@ -66,7 +68,7 @@ def World.register (W : World) (id : Nat) (r : Rec) : World :=
 
 /-- Call the recover closure `id` on a token. -/
 def askRecover (W : World) (id : Nat) (t : Tok) : Bool × World :=
-  match (W.specs.find? (·.1 == id)).map (·.2) with
+  match ((W.specs.find? (·.1 == id)).map (·.2) : Option Rec) with
   | none => (true, W)
   | some (.before k) => (t.kind == k, W)
   | some (.beforeAny ks) => (ks.contains t.kind, W)
@@ -178,6 +180,11 @@ def hiAllows (hi : Option Nat) (n : Nat) : Bool :=
   match hi with
   | none => true
   | some h => n < h
+
+def hiBelow (hi : Option Nat) (lo : Nat) : Bool :=
+  match hi with
+  | none => false
+  | some h => decide (h < lo)
 
 def optVal : Option Val → Val
   | Option.none => Val.none
@@ -397,10 +404,13 @@ def run (R : RunEnv) : Nat → G → Lx → Ctx → World → RRes × World
             (.err (mkErr (.boundary es lx3.cursor)), W1)
       | r => r
     | .list v id lo hi a sep abort =>
+      -- `list` / `list_default` are the unbounded forms: (0, None)
+      let lo := if v % 2 == 0 then 0 else lo
+      let hi := if v % 2 == 0 then Option.none else hi
       match hi with
       | Option.some 0 => (.ok (.list []) lx, W)
       | _ =>
-        if (match hi with | Option.some h => h < lo | Option.none => false) then (.panic, W) else
+        if (hiBelow hi lo) then (.panic, W) else
         listLoop R n v id lo hi a sep abort lx ctx W []
     | .probe tag =>
       let pe := mkErr (.probe tag)
@@ -457,7 +467,7 @@ def interLoopStart (R : RunEnv) (n : Nat) (lo : Nat) (hi : Option Nat) (a sep : 
   match n with
   | 0 => (.fuel, W)
   | n + 1 =>
-    if (match hi with | Option.some h => h < lo | Option.none => false) then (.panic, W) else
+    if (hiBelow hi lo) then (.panic, W) else
     if hi == Option.some 0 then (.ok (.list []) lx, W) else
     match run R n a lx ctx W with
     | (.ok v lx1, W1) => interLoop R n lo hi a sep [v] lx1 ctx W1
@@ -489,7 +499,7 @@ def untilStart (R : RunEnv) (n : Nat) (lo : Nat) (hi : Option Nat) (stop a sep :
   match n with
   | 0 => (.fuel, W)
   | n + 1 =>
-    if (match hi with | Option.some h => h < lo | Option.none => false) then (.panic, W) else
+    if (hiBelow hi lo) then (.panic, W) else
     if hi == Option.some 0 then (.ok (.list []) lx, W) else
     match run R n stop lx ctx W with
     | (.ok _ _, W0) => (.ok (.list []) lx, W0)
